@@ -24,6 +24,9 @@ pub fn batches(prop: &str) -> Vec<Batch> {
         "C12" => vec![b("A", "wire", 2500, 150_000), b("A", "mixed", 800, 50_000)],
         "C13" => vec![b("A", "mixed", 3000, 200_000), b("A", "restart", 500, 40_000)],
         "C20" => vec![b("A", "listing", 2000, 100_000)],
+        "C18" => vec![b("A", "crash", 1500, 100_000), b("A", "restart-pair", 1000, 60_000), b("A", "images", 600, 30_000)],
+        "C05" => vec![b("A", "hostile", 3000, 200_000)],
+        "C08" => vec![b("A", "acl-http", 2000, 100_000)],
         _ => vec![],
     }
 }
@@ -82,8 +85,28 @@ pub fn run_check(prop: &str, tier: &str, base_seed: u64, verif_dir: &str) -> i32
             jobs.push(make_job(batch.world, batch.shape, job_seed(base_seed, prop, batch.shape, i), thorough));
         }
     }
-    let mut sum = BatchSummary::new();
     let w = workers();
+    let mut enumerated: Vec<serde_json::Value> = vec![];
+    if prop == "C18" {
+        /* crash-point enumeration: for each small history, one run per mutating disk
+         * call k = 1..K (K measured by an uninterrupted run of the same plan) */
+        let nh = ((if thorough { 400.0 } else { 16.0 }) * scale).ceil() as u64;
+        let bases: Vec<Job> = (0..nh).map(|i| make_job("A", "cp-history", job_seed(base_seed, prop, "cp-history", i), thorough)).collect();
+        let base_outs = run_jobs(&bases, w, false, |_, _| {});
+        for (i, o) in base_outs.iter().enumerate() {
+            if let (Outcome::Done(r), Job::A(p)) = (o, &bases[i]) {
+                let k_max = r.disk_calls;
+                enumerated.push(serde_json::json!({"seed": p.seed, "image": p.image.as_ref().map(|x| format!("{:?}", x).chars().take(40).collect::<String>()), "steps": p.steps.len(), "disk_calls_K": k_max, "crash_points_run": k_max}));
+                for k in 1..=k_max {
+                    let mut q = p.clone();
+                    q.crash_at_total = Some(k);
+                    q.shape = "crashpoint".into();
+                    jobs.push(Job::A(q));
+                }
+            }
+        }
+    }
+    let mut sum = BatchSummary::new();
     let outs = run_jobs(&jobs, w, false, |_, _| {});
     for (i, o) in outs.iter().enumerate() {
         sum.add(i, &jobs[i], o);
@@ -169,6 +192,7 @@ pub fn run_check(prop: &str, tier: &str, base_seed: u64, verif_dir: &str) -> i32
             "probes_at_zero": zero_probes,
             "observations": sum.observations,
             "known_findings_seen": known_lines,
+            "crash_point_enumeration": {"exhaustive_per_history": true, "model": "process kill just before the k-th mutating VFS call (create/write/truncate/sync/delete); page cache survives", "histories": enumerated},
             "violations_of_other_properties_seen_and_ignored_here": other_props,
             "components": real_stub(),
             "workers": w,
